@@ -16,9 +16,6 @@ use crate::{
     sets::{self, SetDomain},
 };
 
-/// Memory budget of a single API call on a map within editor ranges (<= 400 objects, <= 3 h): the largest legitimate
-/// high-water mark observed on the unchanged tree is reported in the evidence (`max_call_heap_kib:realistic`);
-/// the budget is more than an order of magnitude above it. The adversarial domain is only bound by the 4 GiB rlimit.
 thread_local! {
     /// estimated number of 400 ms strain sections of the current map at the current clock rate (0 before the sweep of a mode)
     static EST_SECTIONS: std::cell::Cell<f64> = const { std::cell::Cell::new(0.0) };
@@ -200,7 +197,7 @@ pub fn case(ctx: &mut Ctx, idx: u64) {
         if let Some(Ok(mut g)) = step(ctx, "gradual_difficulty::new", mname, &detail, text, || crate::api::gradual(dg.clone(), &map, mode)) {
             let max_steps = if heavy { 12 } else { 80 };
             for _ in 0..max_steps {
-                let k = c03::gen_k(&mut rng, 6).min(1 << 40);
+                let k = c03::gen_k(&mut rng, 6);
                 let r = if rng.chance(0.5) {
                     step(ctx, "gradual_difficulty::next", mname, &detail, text, || g.next().is_some())
                 } else {
